@@ -369,7 +369,9 @@ pub fn gen_doc(rng: &mut Rng) -> DocD {
     // slot 0 is usually CP437 8x16 but also an 8x8 / 8x14 / 8x19 / 8x32 font: the preview cell size follows it, and
     // the other slots then hold taller and shorter fonts than the preview cell
     if rng.chance(1, 2) {
-        d.fonts.push(FontD { slot: 0, name: "Font 0".into(), height: 16, builtin: Some(0), data: vec![], sauce_name: None });
+        // one time in four a renamed copy of the stock font: same glyphs as the font a fresh buffer starts with, other name
+        let name = if rng.chance(1, 4) { "renamed stock font" } else { "Font 0" };
+        d.fonts.push(FontD { slot: 0, name: name.into(), height: 16, builtin: Some(0), data: vec![], sauce_name: None });
     } else if rng.chance(1, 3) {
         // built-in pages with long names (more than the 22 characters of the SAUCE font field) in slot 0
         d.fonts.push(FontD { slot: 0, name: "builtin 0".into(), height: 16, builtin: Some(1 + rng.usize(42)), data: vec![], sauce_name: None });
@@ -466,7 +468,7 @@ impl Prop for C07 {
         "C07"
     }
     fn rule(&self) -> &'static str {
-        "documents with 1..=6 layers (about one in 400 documents is a single 150..=200 x 90..=120 layer of long-form cells - over 300 KB of layer data - hidden / locked / alpha-locked in every combination - or, one time in three, a text layer under an image layer whose picture is 3 MB to 7.2 MB of RGBA bytes: exactly one writer chunk of 3,000,000 bytes, one pixel more, and over two chunks; one in eight above the first an image layer: role Image with a sixel picture of up to 40x30 pixels; sizes 0..=200 x 0..=120, mostly <= 40x20 because every save PNG-encodes a preview; offsets -50..=50; all combinations of visible / locked / position-locked / alpha / alpha-locked; modes normal/chars/attributes; colour tags; transparency; Unicode and 300-character titles; rows ending before and at the layer width; short-form and long-form cells incl. characters > 0xFFFF, colours > 255 and the transparent colour; attribute flags), palettes of 1..=300 colours (also prefixes, the whole, extensions and one-colour variations of the stock DOS palette), font slots from {0,1,2,5,42,100,255,256,300} with built-in pages 0..=42 (also in slot 0: names longer than the SAUCE font field) and custom fonts of height 8/14/16/19/32 with 256 or 512 glyphs (also in slot 0, whose size the preview uses, and also under the stock font's name), every referenced page present, with and without SAUCE, are saved with Buffer::to_bytes(\"icy\", lossles_output) and loaded with Buffer::from_bytes; a field-by-field comparator checks buffer size and modes, every layer property incl. the role (image layers: picture size, scales and RGBA bytes), every cell inside the layer size (invisible cells as invisible only), the palette, every font slot (name, size, length, glyph bytes) and the SAUCE fields. distinct_nontrivial = distinct (size, layer shapes and flags, fonts, palette length) documents"
+        "documents with 1..=6 layers (about one in 400 documents is a single 150..=200 x 90..=120 layer of long-form cells - over 300 KB of layer data - hidden / locked / alpha-locked in every combination - or, one time in three, a text layer under an image layer whose picture is 3 MB to 7.2 MB of RGBA bytes: exactly one writer chunk of 3,000,000 bytes, one pixel more, and over two chunks; one in eight above the first an image layer: role Image with a sixel picture of up to 40x30 pixels; sizes 0..=200 x 0..=120, mostly <= 40x20 because every save PNG-encodes a preview; offsets -50..=50; all combinations of visible / locked / position-locked / alpha / alpha-locked; modes normal/chars/attributes; colour tags; transparency; Unicode and 300-character titles; rows ending before and at the layer width; short-form and long-form cells incl. characters > 0xFFFF, colours > 255 and the transparent colour; attribute flags), palettes of 1..=300 colours (also prefixes, the whole, extensions and one-colour variations of the stock DOS palette), font slots from {0,1,2,5,42,100,255,256,300} with built-in pages 0..=42 (also in slot 0: names longer than the SAUCE font field, and renamed copies of the stock font) and custom fonts of height 8/14/16/19/32 with 256 or 512 glyphs (also in slot 0, whose size the preview uses, and also under the stock font's name), every referenced page present, with and without SAUCE, are saved with Buffer::to_bytes(\"icy\", lossles_output) and loaded with Buffer::from_bytes; a field-by-field comparator checks buffer size and modes, every layer property incl. the role (image layers: picture size, scales and RGBA bytes), every cell inside the layer size (invisible cells as invisible only), the palette, every font slot (name, size, length, glyph bytes) and the SAUCE fields. distinct_nontrivial = distinct (size, layer shapes and flags, fonts, palette length) documents"
     }
     fn meta(&self, ctx: &Ctx) -> Value {
         json!({"floor_evaluations": 500, "floor_distinct": ctx.tier.pick(500u64, 10000u64),
